@@ -22,6 +22,7 @@ COLLISION_SCHEMAS = [
 KNOWN_BAD = [
     ("F17-reset", "vz.f17 reset:int string:int = vz.F17;\n", ["tl2all"]),
     ("F18-typedef-bool", "vz.val0 Bool = vz.Val0;\nvz.useVal0 a:vz.val0 = vz.UseVal0;\n", ["tl2all"]),
+    ("F27-unused-type-parameter", "vz.s27 x:int = vz.S27;\nvz.pair27 {X:Type} {Y:Type} b:Y = vz.Pair27 X Y;\nvz.use27 p:(vz.Pair27 (Maybe vz.s27) vz.s27) = vz.Use27;\n", ["tl2all"]),
     ("F19-empty-struct-under-mask", "vz.obj8 = vz.Obj8;\nvz.useObj8 m:# a:m.1?vz.obj8 = vz.UseObj8;\n", ["tl2all"]),
 ]
 KNOWN_BAD_TL2 = [("F14-bit-array", "x = var:[]bit;\n")]
@@ -74,7 +75,7 @@ def run(ctx):
     nmut = 400 if thorough else 60
     valid_texts = []
     for i in range(nvalid):
-        s = schemagen.generate(ctx.seed, "c14/%d" % i)
+        s = schemagen.generate(ctx.seed, "c14/%d" % i, rec_containers=(i % 2 == 1))
         valid_texts.append(s.text())
         cases.append(("v%d" % i, {"s.tl": s.text()}, list(OPTION_SETS)[i % len(OPTION_SETS)], "schemagen-valid"))
     repo_texts = [open(os.path.join(ctx.scratch, f)).read() for f in (gen.TLS + "cases.tl", gen.TLS + "goldmaster.tl")]
@@ -117,7 +118,10 @@ def run(ctx):
             continue
         if core.PANIC_PATTERNS.search(text) or rr.rc not in (0, 1):
             m = core.PANIC_PATTERNS.search(text)
-            ctx.violation(dict(sig, **{"class": "panic"}), "tl2gen exit status %d, output shows a panic/internal error on a %s schema:\n%s" % (rr.rc, kind, text[max(0, (m.start() if m else 0) - 200):][:1500]), files_for_replay)
+            cls = "panic"
+            if re.search(r"panic: internal error: cannot get type of argument .*: internal error: instance .* must exist", text):
+                cls = "panic:type-argument-instance-must-exist"  # finding F27: a template parameter that no field uses
+            ctx.violation(dict(sig, **{"class": cls}), "tl2gen exit status %d, output shows a panic/internal error on a %s schema:\n%s" % (rr.rc, kind, text[max(0, (m.start() if m else 0) - 200):][:1500]), files_for_replay)
             continue
         if rr.rc == 1:
             stats["rejected"] += 1
